@@ -4,3 +4,4 @@ import PygyroVerif.Model.Blocks
 import PygyroVerif.Model.Layout
 import PygyroVerif.Lemmas.Blocks
 import PygyroVerif.Props.C02
+import PygyroVerif.Model.BSpline
